@@ -1,5 +1,7 @@
 import DendroModel.Basic.Tree
 import DendroModel.Gen.Tables
+import DendroModel.Model.C10Py
+import DendroModel.Gen.C10Lower
 /-! C10 — `TaxonNamespace` as a state machine over its whole public op alphabet (Mathlib-free, executable).
 
 `Taxon` objects are opaque ids (`Nat`) whose label lives in a world-level store (`World.labels`, id = position),
@@ -28,15 +30,46 @@ def Map.put (m : Map) (k v : Nat) : Map := (k, v) :: Map.erase m k
 
 /-! ## labels: case folding and NEXUS token escaping -/
 
-/-- `str.lower` on the character repertoire the generators use (ASCII and Latin-1 letters); the harness
-differential-tests this function against CPython on every label it generates (driver op `lower`). -/
-def lowerChar (c : Char) : Char :=
-  let n := c.toNat
-  if 65 ≤ n ∧ n ≤ 90 then Char.ofNat (n + 32)
-  else if 192 ≤ n ∧ n ≤ 222 ∧ n ≠ 215 then Char.ofNat (n + 32)
-  else c
+/-! `str.lower` — what `_lookup_label` applies to the query (`str(label).lower()`) and `Taxon.lower_cased_label` to a member's
+label — on all of Unicode, over the tables `Gen/C10Lower.lean` regenerates from the running interpreter: single characters through
+`lowerRanges` / `lowerSpecial`, and the one context rule of `str.lower`, Final_Sigma.  The harness differential-tests
+`pyLower` against CPython on every label it generates (driver op `lower`). -/
 
-def pyLower (s : String) : String := String.ofList (s.toList.map lowerChar)
+/-- membership in a table of disjoint code-point ranges sorted upwards (the scan stops at the first range beyond `n`) -/
+def inRanges : List (Nat × Nat) → Nat → Bool
+  | [], _ => false
+  | (a, b) :: rs, n => if n < a then false else if n ≤ b then true else inRanges rs n
+
+/-- the offset of the range of `lowerRanges` (sorted upwards, disjoint) that holds `n` -/
+def findRange (n : Nat) : List (Nat × Nat × Nat × Int) → Option Int
+  | [] => none
+  | (a, b, st, d) :: rs => if n < a then none else if n ≤ b && (n - a) % st == 0 then some d else findRange n rs
+
+/-- `chr(n).lower()` for every code point but the capital sigma -/
+def lowerCp (n : Nat) : List Nat :=
+  match C10Lower.lowerSpecial.lookup n with
+  | some l => l
+  | none =>
+    match findRange n C10Lower.lowerRanges with
+    | some d => [((n : Int) + d).toNat]
+    | none => [n]
+
+/-- the first character that is not case-ignorable is cased (one side of the Final_Sigma context) -/
+def wordEdgeCased (cs : List Nat) : Bool :=
+  match cs.dropWhile (inRanges C10Lower.caseIgnorable) with
+  | c :: _ => inRanges C10Lower.cased c
+  | [] => false
+
+/-- Final_Sigma: a cased letter before (`pre` is the reversed prefix), none after, case-ignorable characters skipped -/
+def sigmaFinal (pre post : List Nat) : Bool := wordEdgeCased pre && !wordEdgeCased post
+
+def lowerGo : List Nat → List Nat → List Nat
+  | _, [] => []
+  | pre, c :: rest =>
+    (if c = C10Lower.capitalSigma then [if sigmaFinal pre rest then C10Lower.finalSigma else C10Lower.smallSigma] else lowerCp c)
+      ++ lowerGo (c :: pre) rest
+
+def pyLower (s : String) : String := String.ofList ((lowerGo [] (s.toList.map Char.toNat)).map Char.ofNat)
 
 /-- `nexusprocessing.escape_nexus_token(label, preserve_spaces, quote_underscores)` with the default
 `protect_regex` (its character class is the generated table `Tables.protectDefault`) -/
@@ -110,9 +143,29 @@ def NS.effCs (s : NS) : Option Bool → Bool
   | some b => b
   | none => s.caseSens
 
+/-- `str(label)` of an optional label -/
+def pyStr : Option String → String
+  | none => "None"
+  | some s => s
+
+/-- the comparison inside the scan of `_lookup_label`, for optional labels on both sides (`Taxon()` has the label `None`):
+case-sensitively `label == taxon.label`; otherwise `str(label).lower() == taxon.lower_cased_label`, where the lower-cased
+label of an unlabelled taxon is `None` and equals no string.  The state machine only has labelled taxa and string queries
+(`labelMatches`); the driver op `matcho` runs this kernel on optional labels against the implementation. -/
+def labelMatchesO (cs : Bool) (q tl : Option String) : Bool :=
+  if cs then q == tl
+  else match tl with
+    | none => false
+    | some l => pyLower (pyStr q) == pyLower l
+
 /-- the comparison inside the scan of `_lookup_label` -/
 def labelMatches (lab : Nat → String) (cs : Bool) (label : String) (t : Nat) : Bool :=
-  if cs then label == lab t else pyLower label == pyLower (lab t)
+  labelMatchesO cs (some label) (some (lab t))
+
+/-- `escape_nexus_token` of an optional label: an unlabelled taxon is written as the empty token -/
+def escapeTokenO (ps qu : Bool) : Option String → String
+  | none => ""
+  | some l => escapeToken ps qu l
 
 /-- the scan of `_lookup_label(first_match_only=False)`: accumulate matches in list order -/
 def scanAll (p : Nat → Bool) : List Nat → List Nat → List Nat
@@ -158,6 +211,32 @@ def insertBy (lab : Nat → String) (rev : Bool) (x : Nat) : List Nat → List N
 /-- `self._taxa.sort(key=lambda x: x.label, reverse=rev)`: stable, ties keep their original order in both directions -/
 def sortBy (lab : Nat → String) (rev : Bool) (l : List Nat) : List Nat := l.foldr (insertBy lab rev) []
 
+/-- `self._taxa.sort(key=key, reverse=rev)` for an arbitrary key function `key : Taxon → κ` whose values are compared by
+`le` (the custom-key path of `TaxonNamespace.sort`): the same stable insertion, parameterised -/
+def insertByK {κ : Type} (le : κ → κ → Bool) (key : Nat → κ) (rev : Bool) (x : Nat) : List Nat → List Nat
+  | [] => [x]
+  | y :: ys =>
+    if (if rev then le (key y) (key x) else le (key x) (key y)) = true then x :: y :: ys
+    else y :: insertByK le key rev x ys
+
+def sortByK {κ : Type} (le : κ → κ → Bool) (key : Nat → κ) (rev : Bool) (l : List Nat) : List Nat :=
+  l.foldr (insertByK le key rev) []
+
+/-- the key functions the harness passes as `sort(key=…)` -/
+inductive SortKey where
+  | label      -- `lambda x: x.label` (what `key=None` stands for)
+  | lower      -- `lambda x: x.label.lower()`
+  | len        -- `lambda x: len(x.label)`
+  | acc        -- `tns.accession_index` (bit order)
+  | lenLabel   -- `lambda x: (len(x.label), x.label)`: tuples compare lexicographically
+  | const      -- `lambda x: 0`: nothing may move, in either direction
+deriving DecidableEq, Repr
+
+def strLe (a b : String) : Bool := decide (a ≤ b)
+
+/-- `<=` on `(int, str)` tuples -/
+def pairLe (a b : Nat × String) : Bool := decide (a.1 < b.1) || (decide (a.1 = b.1) && strLe a.2 b.2)
+
 /-! ### bits -/
 
 /-- `taxon_bitmask`: memoised `1 << index` -/
@@ -190,13 +269,6 @@ def btl (a2t : Map) (m index : Nat) : Except Err (List Nat) :=
   else btl a2t (m / 2) (index + 1)
 termination_by m
 decreasing_by all_goals omega
-
-/-- binary digits, most significant first (`bin(n)[2:]`) -/
-def binDigits (n : Nat) : List Char :=
-  if _h : n < 2 then [if n = 0 then '0' else '1']
-  else binDigits (n / 2) ++ [if n % 2 = 0 then '0' else '1']
-termination_by n
-decreasing_by omega
 
 /-- `bitmask_as_bitstring`: `bin(b)[2:].rjust(count, "0")` -/
 def NS.bitstring (s : NS) (b : Nat) : List Char :=
@@ -262,6 +334,22 @@ def World.init : World := ⟨[], []⟩
 
 def World.lab (w : World) (t : Nat) : String := w.labels.getD t ""
 
+/-- the key function of each kind, and the order of its values -/
+def sortWith (w : World) (s : NS) (k : SortKey) (rev : Bool) (l : List Nat) : List Nat :=
+  match k with
+  | .label => sortByK strLe w.lab rev l
+  | .lower => sortByK strLe (fun t => pyLower (w.lab t)) rev l
+  | .len => sortByK Nat.ble (fun t => (w.lab t).length) rev l
+  | .acc => sortByK Nat.ble (fun t => (s.t2a.get t).getD 0) rev l
+  | .lenLabel => sortByK pairLe (fun t => ((w.lab t).length, w.lab t)) rev l
+  | .const => sortByK Nat.ble (fun _ => 0) rev l
+
+/-- the loop of `label_taxon_map` seen from one key: `d[t.label] = t` over the members in order, so the *last* member
+whose label is (case-sensitively: equal to; in a `CaseInsensitiveDict`: lower-cased equal to) the key is what it maps to -/
+def scanLast (p : Nat → Bool) : List Nat → Option Nat → Option Nat
+  | [], acc => acc
+  | t :: ts, acc => scanLast p ts (if p t then some t else acc)
+
 inductive Item where
   | tax (t : Nat)
   | lab (l : String)
@@ -308,6 +396,16 @@ inductive Op where
   | nwk (n m : Nat) (ps qu : Bool)
   | bits (n m : Nat)
   | isIn (n t : Nat)
+  -- extension round: keyword forms and further entry points
+  | sortk (n : Nat) (k : SortKey) (rev : Bool)        -- `sort(key=…, reverse=rev)`
+  | btli (n m idx : Nat)                               -- `bitmask_taxa_list(m, index=idx)`
+  /-- `taxa_bitmask(**kwargs)`: `taxa=` wins over `labels=`; without `taxa=` the other keywords go to `get_taxa`
+  (`labels`, `is_case_sensitive`, `first_match_only`), which refuses a call without `labels` (`TypeError`) -/
+  | tbmKw (n : Nat) (taxa : Option (List Nat)) (labels : Option (List String)) (c : Option Bool) (first : Bool)
+  | mknsImm (cs : Bool) (items : List Item)            -- `TaxonNamespace(items, is_case_sensitive=cs, is_mutable=False)`
+  | copyKw (n : Nat) (cs mu : Option Bool)            -- `TaxonNamespace(other, is_case_sensitive=…, is_mutable=…)`
+  | scopedCopy (n : Nat)                                 -- `taxon_namespace_scoped_copy(memo)`: the namespace itself
+  | ltm (n : Nat) (c : Option Bool) (l : String)       -- `label_taxon_map(is_case_sensitive=c).get(l)`
 deriving Repr
 
 inductive Out where
@@ -431,11 +529,27 @@ def stepNs (w : World) (n : Nat) (s : NS) : Op → World × Out
     | (s', r) => (w.setNs n s', exceptOut (fun x => .str x.text) r)
   | .bits _ m => (w, .str (String.ofList (s.bitstring m)))
   | .isIn _ t => (w, .bool (s.contains t))
-  | .mk _ | .mkns _ _ | .relabel _ _ => (w, .bad)
+  | .sortk _ k rev => (w.setNs n { s with taxa := sortWith w s k rev s.taxa }, .ok)
+  | .btli _ m idx => (w, exceptOut .ids (btl s.a2t m idx))
+  | .tbmKw _ taxa labels c first => match taxa, labels with
+    | some ts, _ => (match s.taxaBitmask ts 0 with
+      | (s', r) => (w.setNs n s', exceptOut .nat r))
+    | none, some ls => (match s.taxaBitmask (s.getTaxa w.lab c first ls []) 0 with
+      | (s', r) => (w.setNs n s', exceptOut .nat r))
+    | none, none => (w, .err .typeError)
+  | .copyKw _ _ mu =>
+    -- `is_mutable=False` is in force while the members of `other` are added, so a non-empty `other` is refused;
+    -- afterwards both keyword values are overwritten by (copies of) `other`'s attributes
+    if mu = some false ∧ s.taxa ≠ [] then (w, .err .immutable)
+    else ({ w with nss := w.nss ++ [s.copyCtor] }, .nat w.nss.length)
+  | .scopedCopy _ => (w, .nat n)
+  | .ltm _ c l => (w, .optId (scanLast (labelMatches w.lab (s.effCs c) l) s.taxa none))
+  | .mk _ | .mkns _ _ | .relabel _ _ | .mknsImm _ _ => (w, .bad)
 
 /-- the namespace an operation addresses (none for world-level operations) -/
 def Op.ns : Op → Option Nat
-  | .mk _ | .mkns _ _ | .relabel _ _ => none
+  | .mk _ | .mkns _ _ | .relabel _ _ | .mknsImm _ _ => none
+  | .sortk n _ _ | .btli n _ _ | .tbmKw n _ _ _ _ | .copyKw n _ _ | .scopedCopy n | .ltm n _ _
   | .add n _ | .addTaxa n _ | .new n _ | .newTaxa n _ | .req n _ _ | .rm n _ | .del n _ | .rml n _ _ | .dl n _ _
   | .rmlf n _ _ _ | .dlf n _ _ _
   | .sort n _ | .rev n | .clear n | .copy n | .deep n | .setMut n _ | .setCs n _ | .get n _ _ | .find n _ _
@@ -451,6 +565,7 @@ def Op.refsOk (bound : Nat) : Op → Bool
   | .add _ t => t < bound
   | .addTaxa _ ts => ts.all (· < bound)
   | .mkns _ items => items.all (Item.refOk bound)
+  | .mknsImm _ items => items.all (Item.refOk bound)
   | _ => true
 
 def step (w : World) (op : Op) : World × Out :=
@@ -461,6 +576,11 @@ def step (w : World) (op : Op) : World × Out :=
     match ctorLoop w (NS.empty cs) items with
     | (w', s) => ({ w' with nss := w'.nss ++ [s] }, .nat w'.nss.length)
   | .relabel t l => if t < w.labels.length then ({ w with labels := w.labels.set t l }, .ok) else (w, .bad)
+  | .mknsImm cs items =>
+    -- `is_mutable=False` is assigned before the iterable is consumed: the first item (a `Taxon` to add or a label to
+    -- create) is refused, and no namespace comes into being; only the empty iterable gives an (empty, immutable) namespace
+    if items = [] then ({ w with nss := w.nss ++ [{ NS.empty cs with mutable_ := false }] }, .nat w.nss.length)
+    else (w, .err .immutable)
   | op => match op.ns with
     | none => (w, .bad)
     | some n => match w.nss[n]? with
